@@ -155,7 +155,97 @@ def run_block(case):
     return res
 
 
-KINDS = {"block": run_block}
+def _fold_exact(v, role):
+    if role == "p":
+        return v - math.floor(v)
+    if role == "r":
+        r = v - 2.0 * math.floor(v / 2.0)
+        return 1.0 - abs(r - 1.0)
+    return v
+
+
+def run_usage(case):
+    """How the real kernels USE the boundary maps, over every ordered pair (A then B) of boundary configurations in one process:
+    a kernel call under configuration A, then one real step of 3 walkers under B with scripted innovations that push every walker
+    across a wall.  Expected result from first principles: designated coordinates folded, a proposal leaving through a hard wall rejected."""
+    from tempest.mcmc import parallel_mcmc
+    from tempest.modes import ModeStatistics
+    from mc.tape import OwnedRandom
+
+    res = Res()
+    d = 2
+    kern = case["kernel"]
+    cov = np.diag([0.04, 0.09])
+    mu = np.array([0.45, 0.55])
+    ms = ModeStatistics(mu[None, :], cov[None, :, :], np.array([4.0]))
+    chol = np.sqrt(cov)
+    s0 = 2.38 / math.sqrt(d)
+    U = np.array([[0.12, 0.5], [0.5, 0.9], [0.85, 0.15]])
+    Z = np.array([[-3.0, 0.4], [0.3, 3.0], [2.5, -2.5]])
+    g = 0.8
+    roles_all = [a + b for a in "spr" for b in "spr"]
+
+    def args_of(roles):
+        per = [i for i in range(d) if roles[i] == "p"] or None
+        ref = [i for i in range(d) if roles[i] == "r"] or None
+        return per, ref
+
+    def one(roles, Zs, spy):
+        per, ref = args_of(roles)
+        zi = [0]
+
+        def h_randn(t, *a, **k):
+            z = Zs[min(zi[0], len(Zs) - 1)]
+            zi[0] += 1
+            return np.array(z)
+
+        def pt(u):
+            spy.append(np.array(u, copy=True))
+            return np.array(u, copy=True)
+
+        with OwnedRandom(1, handlers={"randn": h_randn, "gamma": lambda t, shape=None, scale=1.0, size=None: g, "rand": lambda t, *a, **k: np.zeros(a) if a else 0.0}):
+            return parallel_mcmc(u=U.copy(), x=U.copy(), logl=np.zeros(3), blobs=None, assignments=np.zeros(3, dtype=int), beta=1.0, mode_stats=ms,
+                                 log_likelihood=lambda x: (np.zeros(len(x)), None), prior_transform=pt, n_steps=1, n_max=0, sample=kern,
+                                 periodic=per, reflective=ref, verbose=False)
+
+    # NB: the whole ordered sequence of configurations is ONE execution (state may leak between kernel instances); a replay
+    # therefore re-executes the sequence from the start, never a single pair in isolation
+    for A in (roles_all if case["A"] is None else [case["A"]]):
+        for B in roles_all:
+            try:
+                one(A, Z, [])           # history: a kernel under configuration A in the same process
+                spy = []
+                out = one(B, Z, spy)
+            except Exception as e:
+                res.violate(f"usage:raises:{type(e).__name__}", f"{kern} kernel raised {e!r} under boundaries {B} after a run under {A}", dict(case, at_A=A, at_B=B))
+                continue
+            res.evals += 1
+            res.trans += 2
+            res.states += 1
+            got = np.asarray(out[0])
+            ok = True
+            for k in range(3):
+                if kern == "rwm":
+                    free = U[k] + s0 * (chol @ Z[k])
+                else:
+                    sg = min(s0, 0.99)
+                    free = mu + math.sqrt(1 - sg ** 2) * (U[k] - mu) + sg * math.sqrt(1.0 / g) * (chol @ Z[k])
+                folded = np.array([_fold_exact(float(free[i]), B[i]) for i in range(d)])
+                valid = all(0.0 <= folded[i] <= 1.0 for i in range(d) if B[i] == "s")
+                want = folded if valid else U[k]
+                if np.max(np.abs(got[k] - want)) > 1e-12:
+                    kind = "designated-coordinate-not-folded" if valid else "hard-wall-not-enforced"
+                    res.violate(f"usage:{kind}", f"{kern} under boundaries {B} (per coordinate; s=hard, p=periodic, r=reflective) after a kernel run under {A}: walker {k} at {U[k].tolist()} with free proposal "
+                                f"{free.tolist()} ended at {got[k].tolist()}, expected {want.tolist()}", dict(case, at_A=A, at_B=B))
+                    ok = False
+                    break
+            res.outcome((kern, A, B), nontrivial=(A != B))
+    res.traces += 1
+    res.sample({"kernel": kern, "ordered_pairs_of_boundary_configurations": len(roles_all) ** 2 if case["A"] is None else len(roles_all)}, cap=1)
+    return res
+
+
+KINDS = {"block": run_block, "usage": run_usage}
 
 
 def plan(ctx):
@@ -171,3 +261,5 @@ def plan(ctx):
     if not th:
         ctx.notes.append("quick: for d=3 two-dimensional arrays only every third role assignment (rotated by VERIF_SEED); everything else complete")
     ctx.explore("structured-double-lattice", cases)
+    # each case runs in ONE process in a fixed order, so state leaking between kernel instances is part of the explored history
+    ctx.explore("kernel-usage-of-the-maps", [{"kind": "usage", "kernel": k, "A": None} for k in ("rwm", "tpcn")])
